@@ -303,3 +303,51 @@ pub fn scratch_root() -> PathBuf {
 pub fn cleanup_scratch() {
     let _ = std::fs::remove_dir_all(format!("/dev/shm/tcmc-{}", std::process::id()));
 }
+
+/// Outcome of re-executing a reported violation several times.
+pub enum Confirmed {
+    /// reproduced on every re-execution
+    Always,
+    /// reproduced on some re-executions only: the behaviour depends on something the harness does
+    /// not control (e.g. hash-map iteration order inside the library); still a real observation
+    Sometimes(u32, u32),
+    /// never reproduced: the machinery cannot stand behind the report
+    Never,
+}
+
+/// Re-execute a violation: `run` returns the violation message of one re-execution (None = no
+/// violation). Two clean reproductions suffice; otherwise up to six attempts are made.
+pub fn confirm_violation(mut run: impl FnMut() -> Option<String>, class: &str) -> Confirmed {
+    let same = |m: &Option<String>| m.as_ref().is_some_and(|m| m.split(':').next().unwrap_or("") == class);
+    let (a, b) = (run(), run());
+    if same(&a) && same(&b) {
+        return Confirmed::Always;
+    }
+    let mut hits = same(&a) as u32 + same(&b) as u32;
+    let mut n = 2;
+    while n < 6 {
+        n += 1;
+        if same(&run()) {
+            hits += 1;
+        }
+    }
+    if hits == 0 {
+        Confirmed::Never
+    } else {
+        Confirmed::Sometimes(hits, n)
+    }
+}
+
+/// Apply [`confirm_violation`] the way every check does: exit 2 when the violation never
+/// reproduces, otherwise return a note to append to the message ("" when deterministic).
+pub fn confirm_or_exit(prop: &str, what: &str, run: impl FnMut() -> Option<String>) -> String {
+    let class = what.split(':').next().unwrap_or("");
+    match confirm_violation(run, class) {
+        Confirmed::Always => String::new(),
+        Confirmed::Sometimes(k, n) => format!(" [reproduced in {k} of {n} re-executions: the outcome depends on something outside the harness's control, e.g. hash-map iteration order in the library]"),
+        Confirmed::Never => {
+            eprintln!("MACHINERY ERROR: {prop} violation does not reproduce on re-execution: {}", what.chars().take(400).collect::<String>());
+            std::process::exit(2);
+        }
+    }
+}
